@@ -1,9 +1,9 @@
-(* C15 — buffered-amount accounting is exact.
+(* C15 - buffered-amount accounting is exact.
    Model: coq/model/Sender.v (Stream.packetize / onBufferReleased, processSelectiveAck byte accounting,
    payload_queue markAsAcked).  Ghost g_pend = bytes of each stream still in the pending queue.
    Only statements closed by [exact] + Print Assumptions. *)
 From Coq Require Import ZArith Bool List.
-From Sctp Require Import Gen SnaProofs Sender SenderProofs.
+From Sctp Require Import Gen SnaProofs Sender SenderProofs StreamW StreamWProofs.
 Import ListNotations.
 Open Scope Z_scope.
 
@@ -48,6 +48,17 @@ Theorem c15_write_grows : forall s pend sid frags,
   map fst (st_buffered (write_step s sid frags)) = map fst (st_buffered s).
 Proof. exact write_step_BI. Qed.
 Print Assumptions c15_write_grows.
+
+(* at the API (model StreamW.v of Stream.WriteSCTP, tied to stream.go by its own differential): whatever the
+   outcome of the call - accepted, too large, stream closing, or the association refusing the chunks (not
+   established, blocking write cancelled) with the roll-back that follows - the stream's figure grows by exactly
+   the byte count the call returns; and a write the association accepts on an open stream returns the full length *)
+Theorem c15_write_call_accounts_exactly : forall st n ppi il maxp maxmsg ok st' r cs,
+  sw_wf st -> sw_write st n ppi il maxp maxmsg ok = Some (st', r, cs) ->
+  sw_buffered st' = sw_buffered st + (match r with SwOk k => k | _ => 0 end) /\
+  (ok = true -> n <= maxmsg -> sw_state st = sw_open -> r = SwOk n).
+Proof. exact sw_write_buffered. Qed.
+Print Assumptions c15_write_call_accounts_exactly.
 
 (* non-vacuity: gap-ack followed by cumulative ack releases each byte once; back to zero when drained *)
 Example c15_example_gap_then_cum :
